@@ -1,5 +1,5 @@
 (* C20 - the lemmas Properties.v closes its theorems with. *)
-From VF.C20 Require Import Model Spec Lemmas ProofsWF ProofsWF2 ProofsWF3 ProofsCaps ProofsNonce ProofsNonce2 ProofsNonce3 ProofsNonce4 ProofsNonce5 ProofsTotal ProofsLocals.
+From VF.C20 Require Import Model Spec Lemmas ProofsWF ProofsWF2 ProofsWF3 ProofsCaps ProofsNonce ProofsNonce2 ProofsNonce3 ProofsNonce4 ProofsNonce5 ProofsTotal ProofsLocals ProofsSched.
 From Coq Require Import Lia ZifyBool ZifyN ZifyNat.
 Local Open Scope N_scope.
 
@@ -166,3 +166,11 @@ Proof.
   intro H. destruct (locals_only_from_accepted ops (new_pool c g) a H) as [H1|H1]; auto.
   left. apply (locals_new_pool c g). exact H1.
 Qed.
+
+(* ---- coalesced head changes ------------------------------------------------------- *)
+Lemma merged_resets_all_histories c g ops rs ord n s re :
+  let p := run (new_pool c g) ops in
+  last_reset rs = Some n -> h_state n = Some s -> reset_reinject (chain p) (first_old rs) n = Some re ->
+  run_merged p rs ord = run_reorg p (Some (first_old rs, n)) (s_dirty (merge_all rs)) ord /\
+  cur_state (run_merged p rs ord) = s /\ max_gas (run_merged p rs ord) = h_gaslimit n.
+Proof. cbn zeta. apply merged_resets_equal_last_head. Qed.
